@@ -40,16 +40,25 @@ def relayout(rng, text):
     toks = TOKEN_RE.findall(text)
     out = []
     n = len(toks)
+    stmt_pos = 0   # number of non-blank tokens seen in the current statement
+    head = False   # the statement started with a `<...>` token (a definition head)
     for i, t in enumerate(toks):
         prev = toks[i - 1] if i else ""
+        blank = t.isspace() or (t.startswith("#") and (prev == "" or prev.isspace()))
+        if not blank:
+            stmt_pos += 1
+            if stmt_pos == 1:
+                head = t.startswith("<")
         if t.startswith("#") and (prev == "" or prev.isspace()):
             out.append(t)          # an existing comment stays as it is
         elif t.isspace():
             out.append(lay(rng) if not (prev.startswith("#") and "\n" in t) else "\n" + lay(rng, False))
+        elif t in ("=", "::=") and head and stmt_pos == 2:
+            out.append(lay(rng, False) + rng.choice(["=", "::="]) + lay(rng, False))   # the definition sign
         elif t in ("|", "||", ";"):
             out.append(lay(rng, False) + t + lay(rng, False))
-        elif t == "=" and prev.isspace():
-            out.append(rng.choice(["=", "::="]))
+            if t == ";":
+                stmt_pos = 0
         elif t in ("(", "["):
             out.append(t + lay(rng, False))
         elif t in (")", "]"):
